@@ -143,6 +143,13 @@ def run(ctx):
     ctx.decide(ok, 'R-DOM', 'D4', asarray, gates[0] if gates else None, 'same-path-rejected',
                'asarray rejects path == source path (ValueError) before any effect', detail='a source could be overwritten by its own copy')
     d6_archive_copy(ctx)           # D5
+    # the dtype imposed on later chunks keeps the byte order (shared with C01 D2)
+    dd = [v for v, st in defs_of(asarray.node, 'dtype')]
+    ok = any(isinstance(v, ast.Attribute) and v.attr == 'dtype' for v in dd) and \
+        not [v for v in dd if not isinstance(v, ast.Attribute) and ('.name' in norm(v) or 'np.dtype' in norm(v))]
+    ctx.decide(ok, 'R-FLOW', 'D1', asarray, None, 'imposed-dtype-keeps-byteorder',
+               'asarray imposes the first chunk\'s dtype object (byte order included) on all later chunks of a copy',
+               detail='dtype is rebuilt from the type name: multi-chunk copies of non-native byte order mix endianness')
     for cls in (A, RA):
         m = cls.methods.get('archive')
         dd = ctx.repo.func('DataDir.archive')
